@@ -39,6 +39,7 @@ def run(rep):
         hs.append(H(gen.name("c14_num", t), "total preorder on %s x %s x %s (full domain, non-NaN)" % t, complete=True, tiers=tiers, timeout=tmo))
         if "NativeInt" in t:
             hs.append(H(gen.name("c14_exact", t), "total preorder on %s x %s x %s with |int| <= 2^24 (all promotions exact)" % t, complete=True, tiers=tiers, timeout=tmo))
+    hs.append(H("c14_rep_bigint_vs_native", "integers beyond 64 bits (-10^23, 10^23) against EVERY native integer: ordered by sign and magnitude, both operand orders", complete=False, bound="two concrete big integers x all isize values", timeout=1500))
     rep.assume(common.ASSUMPTION)
     rep.assume("CBMC's bit-precise IEEE-754 semantics for f32/f64 comparison and int->float conversion (round-to-nearest-even)")
     rep.functions += ["<&SparqlNumber as PartialOrd>::partial_cmp, SparqlNumber::coercing_operator / coerce_to_float / coerce_to_double (sparql/src/value/_number.rs)"]
@@ -48,6 +49,11 @@ def run(rep):
         failed = kani_unit.run_harnesses(rep, s, "sophia_sparql", hs, jobs=12, need_stubs=False)
     for h, r in failed:
         m = re.match(r"c14_(num|exact)_(\w+)", h.name)
+        if not m:
+            rc, out, err, secs = native.run_replay(ID, "c14", ["orderby"])
+            rep.violation("kani:sophia_sparql::" + h.name, kani_unit.describe_failure(r), witness=out.strip().splitlines()[-1][:400] if rc == 1 else None,
+                          replay_text="./check C14 --replay <this file>   # replay_src/c14 orderby", confirmed=(rc == 1))
+            continue
         kinds = m.group(2)
         rc, out, err, secs = native.run_replay(ID, "c14", [kinds])
         witness, confirmed = None, False
@@ -65,8 +71,58 @@ def run(rep):
         else:
             rep.violation("kani:sophia_sparql::" + h.name, kani_unit.describe_failure(r), witness=witness,
                           replay_text="./check C14 --replay <this file>   # replay_src/c14 %s (ASK/FILTER through SparqlWrapper)" % kinds, confirmed=confirmed)
-    rep.not_covered += ["kind triples with two or more NativeInt operands (7 of 27): CBMC does not finish (> 40 min each)", "NaN operands, BigInt / BigDecimal operands", "strings, booleans, dateTimes, ill-typed literals and the Term::cmp fallback",
-                        "cmp_bindings_with (None < Some, DESC, later keys) and sort_unstable_by in exec.rs"]
+    run_order_by_stand_in(rep)
+    rep.not_covered += ["kind triples with two or more NativeInt operands (7 of 27): CBMC does not finish (> 40 min each)", "symbolic BigInt / BigDecimal operands (representatives only)",
+                        "NaN, ill-typed literals and timezone-less dateTimes beyond the three recorded witnesses (the ORDER BY pool excludes them)",
+                        "ORDER BY on values outside the 40-value pool of the bounded native stand-in"]
+
+
+FINDING_WHAT = {
+    "nan": "ORDER BY's order is cyclic through NaN: comparable pairs use the numeric order, NaN falls back to Term::cmp (datatype, then lexical form)",
+    "ill_typed": "ORDER BY's order is cyclic through an ill-typed numeric literal: it is compared lexically with well-typed numbers that compare by value among themselves",
+    "datetime_no_timezone": "ORDER BY's order is cyclic through a dateTime without timezone: incomparable within 14 h of a zoned dateTime, it falls back to the lexical order",
+}
+
+
+def run_order_by_stand_in(rep):
+    """Bounded native stand-in for EvalResult::sparql_order_by / sparql_cmp (expression.rs), SparqlValue::partial_cmp
+    (value.rs), XsdDateTime (value/_xsd_date_time.rs), BigInt/BigDecimal comparisons (_number.rs) and
+    cmp_bindings_with + sort_unstable_by (exec.rs): Arc<str>, BigInt, chrono-like parsing, boxed iterators and the
+    spargebra parser are outside both verifiers."""
+    try:
+        binp, dst = native.build_bin(ID, "c14")
+    except core.Undecided as e:
+        rep.undecided.append("c14 ORDER BY stand-in: %s" % e)
+        return
+    import shutil
+    rc, out, err, secs = core.sh([binp, "orderby"], timeout=900)
+    rc2, out2, err2, secs2 = core.sh([binp, "findings"], timeout=300)
+    shutil.rmtree(dst, ignore_errors=True)
+    fns = "EvalResult::sparql_order_by / sparql_cmp (sparql/src/expression.rs), SparqlValue::partial_cmp (value.rs), XsdDateTime ordering, BigInt / BigDecimal comparisons (_number.rs), cmp_bindings_with + sort (exec.rs)"
+    if rc in (0, 1):
+        rep.obligation("native:c14_order_by", "native exhaustive enumeration (rustc, real crates)", rc == 0, seconds=secs,
+                       detail="pool of 40 values (unbound, blank nodes, IRIs, integers incl. beyond 64 bits, decimals, floats, doubles, derived integer types, strings, booleans, zoned dateTimes, language strings, unknown datatype): pairwise order read off two-row ORDER BY queries is a total preorder, puts unbound < blank < IRI < literal, agrees with an independent statement of '<' (and so does FILTER), whole-pool ASC/DESC sorts are sorted permutations, second key breaks ties (4 ASC/DESC combinations) | functions: " + fns + " | " + out.strip()[-150:],
+                       complete=False, bound="40 values, 1600 pairs, 64000 triples, 78 two-key rows")
+        rep.functions.append(fns + " [bounded native stand-in]")
+        if rc == 1:
+            rep.violation("native:c14_order_by", "bounded stand-in failed\n" + out[-1500:], witness=out.strip().splitlines()[-1][:400],
+                          replay_text="./check C14 --replay <this file>   # replay_src/c14 orderby", confirmed=True)
+    else:
+        rep.undecided.append("c14 ORDER BY stand-in did not run (rc=%s): %s" % (rc, (err or out)[-300:].replace("\n", " | ")))
+    if rc2 == 0:
+        for line in out2.strip().splitlines():
+            try:
+                j = json.loads(line)
+            except Exception:
+                continue
+            obl = "native:c14_order_by_cycle_" + j["class"]
+            rep.obligation(obl, "native run (rustc, real crates)", not j["cyclic"], seconds=secs2 / 3.0,
+                           detail="the recorded witness triple of this class: " + j["witness"], complete=False, bound="one triple of values")
+            if j["cyclic"]:
+                rep.violation(obl, FINDING_WHAT.get(j["class"], j["class"]) + "\n" + line, witness=j["witness"],
+                              replay_text="./check C14 --replay <this file>   # replay_src/c14 findings", confirmed=True)
+    else:
+        rep.undecided.append("c14 findings mode did not run (rc=%s): %s" % (rc2, (err2 or out2)[-300:].replace("\n", " | ")))
 
 
 def replay(path):
@@ -74,5 +130,6 @@ def replay(path):
     m = re.search(r"replay_src/c14 (\w+)", rec.get("replay") or "")
     rc, out, err, secs = native.run_replay(ID, "c14", [m.group(1)] if m else [])
     print(out.strip()[-1500:])
-    print("replay of %s: %s" % (rec["obligation"], "VIOLATION REPRODUCED" if rc == 1 else "no failing input in the enumerated domain"))
-    return 1 if rc == 1 else 0
+    bad = rc == 1 or (m and m.group(1) == "findings" and '"cyclic":true' in out)
+    print("replay of %s: %s" % (rec["obligation"], "VIOLATION REPRODUCED" if bad else "no failing input in the enumerated domain"))
+    return 1 if bad else 0
